@@ -809,8 +809,14 @@ def c16(tier):
                             n += 1
                             sig = {"use_cache": str(use_cache), "structured_key": skey, "extensions": str(ext), "lock": str(lock)}
                             # two-run behaviour: edit; developer deletes the highest statement and adds one; edit; check
-                            rl.planned_runs(binary, sc, [[("check", "")], [("edit", "")]], batch, v, sigbase=sig)
+                            res = rl.planned_runs(binary, sc, [[("check", "")], [("edit", "")]], batch, v, sigbase=sig)
                             rl.planned_runs(binary, sc, [[("edit", "")]], batch, v, sigbase=sig, follow="c02")
+                            # a valid configuration with in-scope files: a fault-free edit run succeeds (none of these
+                            # trees is near the end of the ID range)
+                            if res[1]["exits"][0] != 0:
+                                v.violation(dict(sig, check="ValidConfigurationRuns"),
+                                            "C16: a fault-free edit run with a valid configuration (%s) exits %s" % (sig, res[1]["exits"][0]),
+                                            {"scenario": sc.describe(), "exits": res[1]["exits"]})
     for cc in ("missing", "invalid", "nosourcedir", "sourcedirfile", "noinscope", "emptyext", "nomacros"):
         for mode in ("check", "edit"):
             for lock in (None, 9):
